@@ -463,6 +463,7 @@ class Interp:
     # ------------------------------------------------------------------ classes / functions
     def make_func(self, node, m, env, owner):
         kind = "plain"
+        unknown = None
         for d in node.decorator_list:
             u = ast.unparse(d)
             if u == "property":
@@ -473,11 +474,14 @@ class Interp:
                 kind = "classmethod"
             elif u == "staticmethod":
                 kind = "staticmethod"
-            elif "lru_cache" in u or u.endswith("abstractmethod") or u.endswith(".setter"):
+            elif ("lru_cache" in u or u.endswith("abstractmethod") or u.endswith(".setter") or u.split("(")[0].split(".")[-1] in
+                  ("cache", "overload", "final", "override", "no_type_check")):
                 pass
             else:
-                raise AnalysisError(f"decorator {u} on {node.name}")
-        return Func(node, m, env, owner, kind)
+                unknown = u
+        f = Func(node, m, env, owner, kind)
+        f.unknown_deco = unknown
+        return f
 
     def make_class(self, node, m, env):
         bases = []
@@ -1255,6 +1259,8 @@ class Interp:
         raise AnalysisError(f"call of {f!r}")
 
     def call_func(self, func, args, kwargs):
+        if getattr(func, "unknown_deco", None):
+            raise AnalysisError(f"call of {func.qualname} decorated with unmodelled decorator {func.unknown_deco}")
         ov = self.overrides.get(func.module.name + ":" + func.qualname)
         if ov is not None:
             return ov(*args, **kwargs)
@@ -1477,13 +1483,13 @@ class Interp:
         if isinstance(x, AObj):
             r, owner = x.cls.lookup("__hash__")
             if r is not MISSING and isinstance(r, Func):
-                return ("h", self.call(Bound(r, x), [], {}))
+                return self.call(Bound(r, x), [], {})   # user-defined __hash__: its value is the hash
             if self.is_absset(x):
                 return ("set", frozenset(self.py_hash(v) for v in self.iterate(x)))
             dcs = [c for c in x.cls.mro if isinstance(c, ClassInfo) and c.dc is not None]
             if dcs and (dcs[0].dc.get("unsafe_hash") or (dcs[0].dc.get("frozen") and dcs[0].dc.get("eq", True))):
                 flds = [f for f in x.cls.all_fields() if (f[3] if f[3] is not None else f[2])]
-                return ("dc", tuple(self.py_hash(x.f[f[0]]) for f in flds))
+                return ("t", tuple(self.py_hash(x.f[f[0]]) for f in flds))   # dataclass __hash__ = hash(tuple of fields)
             if getattr(x.cls, "is_enum", False):
                 return ("enum", x.cls.name, x.f["name"])
             return ("id", id(x))
